@@ -115,7 +115,8 @@ func TestWorker(t *testing.T) {
 	if job.Worker == 0 && job.SingleSeed == 0 && len(job.SeedList) == 0 {
 		for _, mk := range ps.Directed {
 			tr := mk()
-			res := safeReplay(ps, tr)
+			res := safeReplayInto(ps, tr, agg)
+			agg.Inc("directed.scenarios-run")
 			d := DirectedOut{Trace: tr}
 			if res != nil {
 				d.Violation = res.Violation
